@@ -1,0 +1,16 @@
+//go:build verif
+
+package analysis
+
+import "github.com/go-openapi/spec"
+
+// VerifHook, when set, receives trace events from Flatten and Mixin.
+//
+// It only exists in builds with the "verif" tag (verification harness); regular builds compile verifEmit to nothing.
+var VerifHook func(ev string, doc *spec.Swagger, args ...string)
+
+func verifEmit(ev string, doc *spec.Swagger, args ...string) {
+	if VerifHook != nil {
+		VerifHook(ev, doc, args...)
+	}
+}
